@@ -133,9 +133,9 @@ def syncDecide (br : BR) (ns : Status) (ev : Event) (info : Option Workload) : S
     | some w => ({ ns with hasReadyTime := false, batchState := .upgrading, observedReplicas := w.replicas }, false)
     | none => (ns, false)
   else if ev = .podTemplateChanged ∧ br.status.phase = .progressing then
-    match info with
-    | some w => ({ ns with updateRevision := w.updateRevision }, true)
-    | none => (ns, true)
+    -- a newer revision supersedes the one being released: stop, this round and every following one (the observed
+    -- update revision is not advanced), until the owner deletes or re-creates the BatchRelease
+    (ns, true)
   else if ev = .stillReconciling then (ns, true)
   else if (ev = .rollbackInBatch ∨ br.rollbackAnno) ∧ br.status.noNeedUpdate.isNone ∧ br.status.phase = .progressing then
     match info with
